@@ -24,7 +24,11 @@ def run_assign(mode: str, maxw: int, maxl: int, costs: list[int],
                orders: dict[tuple[int, int], list], nf: list[int] = (1, 2, 3),
                workers: int = 8,
                timeout: int = 1800, emit: bool = True,
-               ) -> tuple[TLCResult, list[dict[str, Any]]]:
+               stream_to: str | None = None,
+               ) -> tuple[TLCResult, Any]:
+    """stream_to: path of a file that receives TLC's output; the second
+    result is then a lazy iterator over the emitted tuples (memory-safe for
+    scopes with millions of states)."""
     ko = '(' + ' @@ '.join(
         f'<<{W}, {k}>> :> {{{tla(o)}}}' for (W, k), o in sorted(orders.items())
     ) + ')' if orders else '<<>>'
@@ -40,7 +44,18 @@ def run_assign(mode: str, maxw: int, maxl: int, costs: list[int],
         cfg += 'INVARIANT Emit\n'
     cfg += 'CHECK_DEADLOCK FALSE\n'
     r = run_tlc(name, cfg_text=cfg, extra_modules={name: mod},
-                workers=workers, timeout=timeout, deadlock=False)
+                workers=workers, timeout=timeout, deadlock=False,
+                emit_path=stream_to)
+    if stream_to is not None:
+        def it() -> Any:
+            with open(stream_to) as fi:
+                for line in fi:
+                    if line.startswith('"{'):
+                        try:
+                            yield json.loads(json.loads(line))
+                        except Exception:  # noqa: BLE001
+                            continue
+        return r, it()
     tuples = []
     for line in r.stdout.splitlines():
         if line.startswith('"{'):
